@@ -266,15 +266,14 @@ impl Disconnect {
             return 2; // Packet type + 0x00
         }
 
-        let mut length = 0;
+        let mut length = 1; // Disconnect Reason Code
 
         if let Some(properties) = &self.properties {
-            length += 1; // Disconnect Reason Code
-
             let properties_len = properties.len();
             let properties_len_len = len_len(properties_len);
             length += properties_len_len + properties_len;
         } else {
+            // just 1 byte representing 0 len properties, which write() emits
             length += 1;
         }
 
@@ -283,7 +282,9 @@ impl Disconnect {
 
     pub fn size(&self) -> usize {
         let len = self.len();
-        if len == 2 {
+        if self.reason_code == DisconnectReasonCode::NormalDisconnection
+            && self.properties.is_none()
+        {
             return len;
         }
 
@@ -325,7 +326,11 @@ impl Disconnect {
 
         let length = self.len();
 
-        if length == 2 {
+        // Reason code and properties can be omitted only for a normal disconnection
+        // without properties (a reason code with empty properties also has length 2)
+        if self.reason_code == DisconnectReasonCode::NormalDisconnection
+            && self.properties.is_none()
+        {
             buffer.put_u8(0x00);
             return Ok(length);
         }
